@@ -32,10 +32,19 @@ def _enum(names: List[str]) -> Any:
                 literals=[_named(intermediate.EnumerationLiteral, n) for n in names])
 
 
-def _cls(props: List[str], methods: List[str]) -> Any:
-    return _obj(intermediate.ConcreteClass, name=Identifier("Some_class"), parsed=_Parsed(),
-                properties=[_named(intermediate.Property, n) for n in props],
-                methods=[_named(intermediate.ImplementationSpecificMethod, n) for n in methods])
+def _cls(props: List[str], methods: List[str], inherited: int = 0) -> Any:
+    """A class; its first ``inherited`` properties and methods are specified for an ancestor."""
+    ancestor = _obj(intermediate.AbstractClass, name=Identifier("Some_ancestor"), parsed=_Parsed())
+    me = _obj(intermediate.ConcreteClass, name=Identifier("Some_class"), parsed=_Parsed())
+    ps = [_named(intermediate.Property, n) for n in props]
+    ms = [_named(intermediate.ImplementationSpecificMethod, n) for n in methods]
+    for k, x in enumerate(ps):
+        object.__setattr__(x, "specified_for", ancestor if k < inherited else me)
+    for k, x in enumerate(ms):
+        object.__setattr__(x, "specified_for", ancestor if k < inherited else me)
+    object.__setattr__(me, "_properties", ps)
+    object.__setattr__(me, "_methods", ms)
+    return me
 
 
 def _check(target: str) -> Optional[Dict[str, Any]]:
@@ -46,6 +55,9 @@ def _check(target: str) -> Optional[Dict[str, Any]]:
         ("class", _cls(["foo_bar", "Foo_bar"], [])),
         ("class", _cls(["foo_bar", "other"], ["foo_bar"])),
         ("class", _cls(["a", "b"], ["c"])),
+        ("class", _cls(["global_asset_id", "global_asset_ID"], [], inherited=1)),
+        ("class", _cls(["value", "other"], ["do_it", "Do_it"], inherited=1)),
+        ("class", _cls(["value"], ["value"], inherited=1)),
         ("enum", _enum(["Foo_bar", "Foo_Bar"])),
         ("enum", _enum(["A", "B"])),
     ]
